@@ -2,6 +2,7 @@ package simrt
 
 import (
 	"github.com/go-kid/ioc/component_definition"
+	"github.com/go-kid/ioc/container"
 )
 
 // ProcCore is the behaviour shared by the nine static user post-processor types. A rule
@@ -27,6 +28,18 @@ func (p *ProcCore) act(kind, name string) error {
 }
 
 func (p *ProcCore) Naming() string { return p.H.Alias }
+
+// PostProcessComponentFactory: every user post-processor is also a component-factory
+// post-processor. A processor may settle its order in this hook (Handle.OrdFinal).
+func (p *ProcCore) PostProcessComponentFactory(factory container.Factory) error {
+	if err := p.H.C.Callback("factorypp", p.H.ID, nil); err != nil {
+		return err
+	}
+	if p.H.OrdFinal != nil {
+		p.H.Ord = *p.H.OrdFinal
+	}
+	return nil
+}
 
 func (p *ProcCore) cb(kind, name string, cur any) (any, error) {
 	if err := p.H.C.Callback(kind, p.H.ID+"@"+name, cur); err != nil {
@@ -96,6 +109,11 @@ type ordM struct{ O int }
 
 func (o *ordM) Order() int { return o.O }
 
+// hOrdM answers with the handle's current order (a processor may settle it late).
+type hOrdM struct{ H *Handle }
+
+func (o *hOrdM) Order() int { return o.H.Ord }
+
 type prioM struct{}
 
 func (p *prioM) Priority() {}
@@ -105,31 +123,31 @@ type (
 	PlainProc  struct{ ProcCore }
 	PlainProcO struct {
 		ProcCore
-		ordM
+		hOrdM
 	}
 	PlainProcP struct {
 		ProcCore
-		ordM
+		hOrdM
 		prioM
 	}
 	InstProc  struct{ InstCore }
 	InstProcO struct {
 		InstCore
-		ordM
+		hOrdM
 	}
 	InstProcP struct {
 		InstCore
-		ordM
+		hOrdM
 		prioM
 	}
 	SmartProc  struct{ SmartCore }
 	SmartProcO struct {
 		SmartCore
-		ordM
+		hOrdM
 	}
 	SmartProcP struct {
 		SmartCore
-		ordM
+		hOrdM
 		prioM
 	}
 )
@@ -205,7 +223,8 @@ func NewLazyProc(class, orderClass string, order int, core ProcCore) any {
 
 // NewProc builds a user post-processor of the given class / order class.
 func NewProc(class, orderClass string, order int, core ProcCore) any {
-	o := ordM{O: order}
+	core.H.Ord = order
+	o := hOrdM{H: core.H}
 	switch class + "/" + orderClass {
 	case "plain/":
 		return &PlainProc{core}
